@@ -330,26 +330,38 @@ where
     R: std::io::Read,
 {
     fn read(&mut self, buf: &mut [u8]) -> std::io::Result<usize> {
-        self.fill_inner()?;
-        match self {
-            Self::Prefix { prefix, .. } => {
-                // Prefix
-                let to_write = buf.len().min(prefix.remaining());
-                prefix.copy_to_slice(&mut buf[..to_write]);
-                Ok(to_write)
+        if buf.is_empty() {
+            return Ok(0);
+        }
+
+        loop {
+            self.fill_inner()?;
+            let written = match self {
+                Self::Prefix { prefix, .. } => {
+                    // Prefix
+                    let to_write = buf.len().min(prefix.remaining());
+                    prefix.copy_to_slice(&mut buf[..to_write]);
+                    to_write
+                }
+                Self::Data { buffer, .. } => {
+                    let to_write = buf.len().min(buffer.remaining());
+                    buffer.copy_to_slice(&mut buf[..to_write]);
+                    to_write
+                }
+                Self::Mdc { mdc } => {
+                    let to_write = buf.len().min(mdc.remaining());
+                    mdc.copy_to_slice(&mut buf[..to_write]);
+                    to_write
+                }
+                Self::Done => return Ok(0),
+                Self::Unknown => unreachable!("error state"),
+            };
+
+            // An exhausted stage is not the end of the stream (only `Done` is),
+            // move on to the next stage instead of reporting a read of 0 bytes.
+            if written > 0 {
+                return Ok(written);
             }
-            Self::Data { buffer, .. } => {
-                let to_write = buf.len().min(buffer.remaining());
-                buffer.copy_to_slice(&mut buf[..to_write]);
-                Ok(to_write)
-            }
-            Self::Mdc { mdc } => {
-                let to_write = buf.len().min(mdc.remaining());
-                mdc.copy_to_slice(&mut buf[..to_write]);
-                Ok(to_write)
-            }
-            Self::Done => Ok(0),
-            Self::Unknown => unreachable!("error state"),
         }
     }
 
